@@ -82,6 +82,10 @@ fn items(seed: u64) -> Vec<(Named, Vec<String>)> {
             out.push((Named { names: n1, kind, hidden: false, ty, adjacent: false, guarded: false }, vec![VA.to_string()]));
             out.push((Named { names: n2, kind, hidden: false, ty, adjacent: false, guarded: false }, vec![VA.to_string(), VB.to_string()]));
             out.push((Named { names: n3, kind, hidden: false, ty, adjacent: false, guarded: false }, vec![VA.to_string()]));
+            if kind.is_arg() {
+                // restricted to one-item spellings (`.adjacent()`): the variable is still the fallback
+                out.push((Named { names: Names::both('a', "alpha").env(VA), kind, hidden: false, ty, adjacent: true, guarded: false }, vec![VA.to_string()]));
+            }
             if ty == Ty::U32 {
                 // guarded: the variable may hold a number the guard rejects
                 out.push((Named { names: Names::both('a', "alpha").env(VA), kind, hidden: false, ty, adjacent: false, guarded: true }, vec![VA.to_string()]));
@@ -466,7 +470,7 @@ impl Check for C18 {
         run_states(&u, unit, ctx, Some((&env, &argv, case["help"].as_bool() == Some(true))));
     }
     fn rule(&self) -> String {
-        "definitions = every item kind (switch, flag, req_flag, count, argument required/optional/many/some/fallback/last; OsString, u32 and guarded u32) backed by {names + one variable, names + two variables, variable only}, alone and beside a neutral switch and an optional positional, plus pairs of env-backed items, plus the single items on levels with fallback_to_usage; configurations = every state {unset, empty, valid, invalid, non-UTF-8, number rejected by the guard of guarded items, value with a blank line} of every declared variable; inputs = every vector of the token tree; reference scanner with the extra rule 'no occurrence on the line -> one synthetic occurrence from the first set variable (flags: present iff set)'; plus: undeclared look-alike variables set/unset give identical outcomes, --help shows [env:NAME ...] state of declared variables only; state = (definition, environment, vector); plus an env-backed argument inside a repeated adjacent command: on every line of the regular form [-s] (job [--level N] [-s])* every occurrence without the argument takes the variable's value (unset / invalid: failure)".into()
+        "definitions = every item kind (switch, flag, req_flag, count, argument required/optional/many/some/fallback/last; OsString, u32 and guarded u32) backed by {names + one variable, names + two variables, variable only}, alone and beside a neutral switch and an optional positional, plus pairs of env-backed items, plus the single items on levels with fallback_to_usage; configurations = every state {unset, empty, valid, invalid, non-UTF-8, number rejected by the guard of guarded items, value with a blank line} of every declared variable; inputs = every vector of the token tree; reference scanner with the extra rule 'no occurrence on the line -> one synthetic occurrence from the first set variable (flags: present iff set)'; plus: undeclared look-alike variables set/unset give identical outcomes, --help shows [env:NAME ...] state of declared variables only; state = (definition, environment, vector); plus an env-backed argument inside a repeated adjacent command: on every line of the regular form [-s] (job [--level N] [-s])* every occurrence without the argument takes the variable's value (unset / invalid: failure); arguments restricted with adjacent() (one-item spellings) are env-backed like the others; a fresh parser value per environment state plus a history clause (run under s1, then under s2: the second answer is a fresh value's); defaults also written fallback_with".into()
     }
     fn bounds(&self, tier: Tier) -> Value {
         json!({"vector_length": tier.pick("4 (single item), 3 (with neighbours)", "5 / 4"), "variables": "1..2 declared, 7 states each, 4 undeclared look-alikes"})
